@@ -15,8 +15,8 @@ func init() {
 			"initialisation, the commit closure and the rotate arm, and its address does not escape; (R4) Stream writes the parser's result back " +
 			"unconditionally and nothing else stores the resume position; (R5) the next attempt starts from the stored position. " +
 			"Not decided: behaviour of the master between attempts; whether a handler that returned an error also acted on the transaction.",
-		Rule: "instances = exits of the parser, writes of the position cell, writers of Streamer.nowPos, call sites of SetBinlogPosition; distinct by rule+construct key",
-		Trusted: append([]string{"sync/atomic.Value Load/Store semantics"}, commonTrusted...),
+		Rule:        "instances = exits of the parser, writes of the position cell, writers of Streamer.nowPos, call sites of SetBinlogPosition; distinct by rule+construct key",
+		Trusted:     append([]string{"sync/atomic.Value Load/Store semantics"}, commonTrusted...),
 		Assumptions: []string{"the analysers see non-test files only", "handler errors are reported through the returned error"},
 	}, runC04)
 
